@@ -187,6 +187,57 @@ func c12FuncNames(s *src) []string {
 func genGuardConsts(s *src, o *out) {
 	o.defZ("guards_hash_step", s.evalInt(s.consts["kPrefixHashStep"], nil, 0))
 
+	// recvPrefixHash: the upper bound in the guard in front of make([]byte, step) must be a CONSTANT of
+	// the code and must bound the very variable make receives - not another number the peer announces.
+	// The right-hand operand of the `>` comparison is evaluated as a constant expression; if it is not
+	// one (a variable, a field, a call) the bound is reported as not constant.
+	boundConst, boundVal, boundLHS := false, int64(0), ""
+	for _, h := range c12Dominators(s, "trzszTransfer.recvPrefixHash", func(n ast.Node) bool {
+		c, ok := c12CallNamed(n, "make")
+		return ok && len(c.Args) >= 2
+	}) {
+		_ = h
+	}
+	ast.Inspect(s.fn("trzszTransfer.recvPrefixHash").Body, func(n ast.Node) bool {
+		i, ok := n.(*ast.IfStmt)
+		if !ok || !c12Terminates(i.Body) {
+			return true
+		}
+		var walk func(e ast.Expr)
+		walk = func(e ast.Expr) {
+			switch e := e.(type) {
+			case *ast.ParenExpr:
+				walk(e.X)
+			case *ast.BinaryExpr:
+				if e.Op == token.LOR {
+					walk(e.X)
+					walk(e.Y)
+				} else if e.Op == token.GTR && boundLHS == "" && strings.Contains(s.text(i.Cond), "step") {
+					boundLHS = s.text(e.X)
+					func() {
+						defer func() {
+							if r := recover(); r != nil {
+								if _, isDie := r.(genFailure); !isDie {
+									panic(r)
+								}
+							}
+						}()
+						boundVal = s.evalInt(e.Y, nil, 0)
+						boundConst = true
+					}()
+				}
+			}
+		}
+		walk(i.Cond)
+		return true
+	})
+	if !boundConst {
+		boundVal = 0
+	}
+	o.defZ("guards_hash_step_bound", boundVal)
+	o.raw("Definition guards_hash_step_bound_const : bool := %v.\n", boundConst)
+	o.raw("Definition guards_hash_step_bound_on_make_arg : bool := %v.\n", boundLHS == "step")
+
 	// newTransfer: default MaxBufSize and the initial buffer size
 	var dfltBuf, initBuf, dfltTimeout int64 = -1, -1, -1
 	ast.Inspect(s.fn("newTransfer").Body, func(n ast.Node) bool {
